@@ -32,6 +32,7 @@ import (
 	"bytes"
 	"encoding/binary"
 	"io"
+	"io/ioutil"
 )
 
 import (
@@ -109,8 +110,10 @@ func parseVersion2(reader *bufio.Reader) (header *Header, err error) {
 		state.ProxyErrInvalidHeader.Inc(1)
 		return nil, ErrUnsupportedProtocolVersionAndCommand
 	}
-	// If command is LOCAL, header ends here
+	// If command is LOCAL, the receiver must skip the rest of the header
+	// (family, length and the address block) and keep the real addresses
 	if header.Command.IsLocal() {
+		skipRestOfHeaderV2(reader)
 		return header, nil
 	}
 
@@ -121,6 +124,11 @@ func parseVersion2(reader *bufio.Reader) (header *Header, err error) {
 		return nil, ErrCantReadAddressFamilyAndProtocol
 	}
 	header.TransportProtocol = AddressFamilyAndProtocol(b14)
+	// UNSPEC: the receiver must skip the address block and keep the real addresses
+	if header.TransportProtocol == UNSPEC {
+		skipLengthAndPayloadV2(reader)
+		return header, nil
+	}
 	if _, ok := supportedTransportProtocol[header.TransportProtocol]; !ok {
 		state.ProxyErrInvalidHeader.Inc(1)
 		return nil, ErrUnsupportedAddressFamilyAndProtocol
@@ -176,6 +184,24 @@ func parseVersion2(reader *bufio.Reader) (header *Header, err error) {
 
 	state.ProxyNormalV2Header.Inc(1)
 	return header, nil
+}
+
+// skipRestOfHeaderV2 consumes what follows the command byte of a LOCAL header:
+// family/protocol, length and the bytes counted by length (as far as present).
+func skipRestOfHeaderV2(reader *bufio.Reader) {
+	if _, err := reader.ReadByte(); err != nil {
+		return
+	}
+	skipLengthAndPayloadV2(reader)
+}
+
+// skipLengthAndPayloadV2 consumes the length field and the bytes it counts.
+func skipLengthAndPayloadV2(reader *bufio.Reader) {
+	var length uint16
+	if err := binary.Read(io.LimitReader(reader, 2), binary.BigEndian, &length); err != nil {
+		return
+	}
+	io.CopyN(ioutil.Discard, reader, int64(length))
 }
 
 func (header *Header) writeVersion2(w io.Writer) (int64, error) {
